@@ -66,4 +66,75 @@ Proof.
   rewrite E. lra.
 Qed.
 
+(* the same bound for the best value reported AFTER the last trial (what Solve returns) *)
+Theorem certificate_box_final (p : params (T := R)) : 1 < p_r p ->
+  forall k s s' x eps, (1 <= k)%nat -> PhiRunN (rootn n) (fun a => a ^ n) p phi_of k s ->
+  Impl.step (rn_ops n) p s (Value (phi_of x)) = (s', Done x) ->
+  4 * cn n * (2 * sqrt (INR n + 3) * L * S) <= p_r p * sM s ->
+  ltb (rn_ops n) (mind s) eps = false -> ltb (rn_ops n) (mind s') eps = true ->
+  forall Y, in_boxR lo hi Y ->
+  sZ s' - f Y < p_r p * sM s / 2 * eps + L * S / 2 ^ m * (sqrt (INR n + 3) + sqrt (INR n) / 2).
+Proof.
+  intros Hr k s s' x eps Hk Hrun St Hmu Hb Ha Y HY.
+  pose proof (certificate_box p Hr k s s' x eps Hk Hrun St Hmu Hb Ha Y HY) as Q.
+  destruct (phirun_inv_n (rootn n) (fun a => a ^ n) p phi_of k s Hrun) as [[C _]|[A F]]; [lia|].
+  pose proof A as (Ff & _). unfold Impl.step in St. unfold rn_ops in St. rewrite Ff in St.
+  pose proof (iteration_best_le (rootn n) (fun a => a ^ n) p s (phi_of x) s' x A St). lra.
+Qed.
+
+(* in terms of Solve itself: a fresh solver, answers = f at the images of the trial points, Solve ends without an exception with
+   the accuracy test satisfied. Then the state s in which the last interval was selected exists, and if r * M(s) >= K_N L S
+   the returned best value obeys the bound at every point of the box *)
+Theorem solve_certificate_box (p : params (T := R)) (ans : nat -> answer R) : 1 < p_r p ->
+  Driven (rootn n) (fun a => a ^ n) p phi_of ans -> ltb (rn_ops n) (pinf (rn_ops n)) (p_eps p) = false ->
+  forall s_f xs, Solves (rn_ops n) p ans (init_st (rn_ops n)) s_f xs false -> ltb (rn_ops n) (mind s_f) (p_eps p) = true ->
+  exists s x, (exists k xs0, steps (rn_ops n) p ans k (init_st (rn_ops n)) = Some (s, xs0)) /\
+              Impl.step (rn_ops n) p s (Value (phi_of x)) = (s_f, Done x) /\ ltb (rn_ops n) (mind s) (p_eps p) = false /\
+              (4 * cn n * (2 * sqrt (INR n + 3) * L * S) <= p_r p * sM s ->
+               forall Y, in_boxR lo hi Y ->
+               sZ s_f - f Y < p_r p * sM s / 2 * p_eps p + L * S / 2 ^ m * (sqrt (INR n + 3) + sqrt (INR n) / 2)).
+Proof.
+  intros Hr D Hinf s_f xs So Hacc.
+  assert (N3 : 0 <= sqrt (INR n + 3)) by apply sqrt_pos.
+  assert (P2 : 0 < 2 ^ m) by (apply pow_lt; lra).
+  set (H := 2 * sqrt (INR n + 3) * L * S) in *. set (g := L * (sqrt (INR n + 3) * S / 2 ^ m)).
+  assert (HH : 0 <= H) by (subst H; repeat apply Rmult_le_pos; lra).
+  assert (Hg : 0 <= g).
+  { subst g. apply Rmult_le_pos; [assumption|]. apply Rmult_le_pos; [apply Rmult_le_pos; assumption | left; apply Rinv_0_lt_compat; exact P2]. }
+  destruct (solve_certificate_n (rootn n) (fun a => a ^ n) (cn n) (cn_lo n Hn) (cn_hi n Hn) (rootn_pos n) (rootn_mono n Hn) (rootn_split n Hn)
+              p phi_of ans H g Hr HH Hg phi_hoelder D Hinf s_f xs So Hacc) as (s & x & Hreach & E & Hmind & Cert).
+  exists s, x. split; [exact Hreach|]. split; [exact E|]. split; [exact Hmind|].
+  intros Hmu Y HY.
+  destruct (imageR_dense n Hall m lo hi S Y Llo Lhi HS Sides HY) as (x0 & Hx0 & Dx0).
+  pose proof (Cert Hmu x0 Hx0) as Q.
+  pose proof (Lip Y _ HY (imageR_in_box n Hall m lo hi S x0 Llo Lhi Sides)) as LY. apply Rabs_le_inv' in LY.
+  fold (phi_of x0) in LY.
+  assert (LD : L * sqrt (dist2R Y (imageR n m lo hi x0)) <= L * (S * sqrt (INR n) / 2 ^ (m + 1))) by (apply Rmult_le_compat_l; assumption).
+  assert (E2 : L * S / 2 ^ m * (sqrt (INR n + 3) + sqrt (INR n) / 2) = g + L * (S * sqrt (INR n) / 2 ^ (m + 1))).
+  { subst g. rewrite pow_add. simpl. field. lra. }
+  rewrite E2. lra.
+Qed.
+
 End Box.
+
+(* ---------- dimension one through the same generic development: root = identity, c = 1/2, no slack ---------- *)
+Lemma id_root_pos (d : R) : 0 < d -> 0 < d. Proof. auto. Qed.
+Lemma id_root_mono (u d : R) : 0 < u -> u <= d -> u <= d. Proof. auto. Qed.
+Lemma id_root_split (u v : R) : 0 < u -> 0 < v -> u + v <= 2 * / 2 * (u + v). Proof. intros. lra. Qed.
+
+Theorem solve_certificate_1d (p : params (T := R)) (phi : R -> R) (ans : nat -> answer R) (H : R) :
+  1 < p_r p -> 0 <= H -> (forall x y, 0 <= x <= 1 -> 0 <= y <= 1 -> Rabs (phi x - phi y) <= H * Rabs (x - y)) ->
+  Driven (fun d => d) (fun a => a) p phi ans -> ltb r_ops (pinf r_ops) (p_eps p) = false ->
+  forall s_f xs, Solves r_ops p ans (init_st r_ops) s_f xs false -> ltb r_ops (mind s_f) (p_eps p) = true ->
+  exists s x, (exists k xs0, steps r_ops p ans k (init_st r_ops) = Some (s, xs0)) /\
+              Impl.step r_ops p s (Value (phi x)) = (s_f, Done x) /\ ltb r_ops (mind s) (p_eps p) = false /\
+              (2 * H <= p_r p * sM s -> forall y, 0 <= y <= 1 -> sZ s_f - phi y < p_r p * sM s / 2 * p_eps p).
+Proof.
+  intros Hr HH Lip D Hinf s_f xs So Hacc.
+  assert (Hoe : forall x y, 0 <= x -> x < y -> y <= 1 -> Rabs (phi x - phi y) <= H * (y - x) + 0).
+  { intros x y H0 Hlt H1. pose proof (Lip x y ltac:(lra) ltac:(lra)) as Q. rewrite (Rabs_left (x - y)) in Q by lra. lra. }
+  destruct (solve_certificate_n (fun d => d) (fun a => a) (/ 2) ltac:(lra) ltac:(lra) id_root_pos id_root_mono id_root_split
+              p phi ans H 0 Hr HH ltac:(lra) Hoe D Hinf s_f xs So Hacc) as (s & x & Hreach & E & Hmind & Cert).
+  exists s, x. split; [exact Hreach|]. split; [exact E|]. split; [exact Hmind|].
+  intros Hmu y Hy. pose proof (Cert ltac:(lra) y Hy). lra.
+Qed.
